@@ -4,9 +4,11 @@ import ClaripyProofs.Lemmas.VSA.Extract
 import ClaripyProofs.Lemmas.VSA.Signed
 import ClaripyProofs.Lemmas.VSA.NormalForm
 import ClaripyProofs.Lemmas.VSA.SextSound
+import ClaripyProofs.Lemmas.VSA.AndXor
 /-!
 The structural soundness theorem of `convBV`/`convB` with the *proved* interval operations discharged:
-`add, sub, neg, not, zero_extend, sign_extend, extract, udiv, shl, lshr, union (If), ULT/ULE/UGT/UGE, SLT/SLE/SGT/SGE`.
+`add, sub, neg, not, and, or, xor, zero_extend, sign_extend, extract, udiv, shl, lshr, union (If), ULT/ULE/UGT/UGE,
+SLT/SLE/SGT/SGE`.
 The induction also carries constructor-normal form (`Nrm`), which the signed orderings need.  What is left as a hypothesis
 (`OpsRest`) is consulted only at nodes that use one of the remaining operations, so ASTs inside the proved fragment get
 an unconditional theorem.  The ASTs considered here have a defined value at every node (no division by zero anywhere,
@@ -16,7 +18,7 @@ the operands is obtained from the concrete values of the sub-expressions.
 namespace Claripy.VSA
 
 def restBin : BinOp → Bool
-  | .mul | .urem | .and | .or | .xor | .ashr => true
+  | .mul | .urem | .ashr => true
   | _ => false
 
 def signedCmp : CmpOp → Bool
@@ -144,7 +146,7 @@ end
 /-! ### the proved operations, in the shape the induction needs -/
 
 theorem bin_proved (op : BinOp) (hop : restBin op = false) (a b r : SI) (o o' : Orders) (wa : a.WF) (wb : b.WF)
-    (hbits : a.bits = b.bits) (hab : a.bottom = false) (hbb : b.bottom = false)
+    (hbits : a.bits = b.bits) (hab : a.bottom = false) (hbb : b.bottom = false) (na : Nrm a) (nb : Nrm b)
     (h : applyBin op a b o = .ok (r, o')) :
     (r.WF ∧ r.bits = a.bits) ∧ ∀ x y v, a.mem x → b.mem y → concBin op a.bits x y = some v → r.mem v := by
   cases op <;> simp only [restBin] at hop <;> try (exact absurd hop (by decide))
@@ -189,6 +191,39 @@ theorem bin_proved (op : BinOp) (hop : restBin op = false) (a b r : SI) (o o' : 
         simp only [Option.some.injEq] at hv
         subst hv
         exact g2 x y hx hy hy0
+  · -- and
+    simp only [applyBin] at h
+    obtain ⟨r1, h1, h⟩ := bind_ok _ _ _ h
+    have := pure_ok _ _ h
+    cases this
+    obtain ⟨⟨g1, _⟩, g2⟩ := and_sound a b r wa wb hbits hab hbb na nb h1
+    refine ⟨g1, ?_⟩
+    intro x y v hx hy hv
+    simp only [concBin, Option.some.injEq] at hv
+    subst hv
+    exact g2 x y hx hy
+  · -- or
+    simp only [applyBin] at h
+    obtain ⟨r1, h1, h⟩ := bind_ok _ _ _ h
+    have := pure_ok _ _ h
+    cases this
+    obtain ⟨g1, g2⟩ := or_sound a b r wa wb hbits hab hbb h1
+    refine ⟨g1, ?_⟩
+    intro x y v hx hy hv
+    simp only [concBin, Option.some.injEq] at hv
+    subst hv
+    exact g2 x y hx hy
+  · -- xor
+    simp only [applyBin] at h
+    obtain ⟨r1, h1, h⟩ := bind_ok _ _ _ h
+    have := pure_ok _ _ h
+    cases this
+    obtain ⟨⟨g1, _⟩, g2⟩ := xor_sound a b r wa wb hbits hab hbb h1
+    refine ⟨g1, ?_⟩
+    intro x y v hx hy hv
+    simp only [concBin, Option.some.injEq] at hv
+    subst hv
+    exact g2 x y hx hy
   · -- shl
     simp only [applyBin] at h
     obtain ⟨r1, h1, h⟩ := bind_ok _ _ _ h
@@ -247,8 +282,58 @@ theorem overRange_nrm (self : SI) (lower upper : Nat) (f : Nat → R SI) (r : SI
     have : r = u.renorm := by cases h; rfl
     exact nrm_of_renorm u r this hw
 
+theorem and_nrm (a b r : SI) (hw : r.WF) (h : a.bitwiseAnd b = .ok r) (hb : 0 < a.bits) (hbits : a.bits = b.bits) : Nrm r := by
+  rw [bitwiseAnd_eq] at h
+  have try_nrm : ∀ (tb : Nat) (p q u : SI), 0 < q.bits → andTry tb p q = .ok (some u) → Nrm u := by
+    intro tb p q u hq hu
+    unfold andTry at hu
+    split at hu
+    · obtain ⟨ps, _, hu⟩ := bind_ok _ _ _ hu
+      simp only [] at hu
+      split_ifs at hu <;> (have := pure_ok _ _ hu; cases this; exact nrm_new _ _ _ _ hq)
+    · cases hu
+  obtain ⟨o1, h1, h⟩ := bind_ok _ _ _ h
+  cases o1 with
+  | some r1 =>
+    have := pure_ok _ _ h
+    subst this
+    exact try_nrm _ _ _ _ (by omega) h1
+  | none =>
+    simp only [] at h
+    obtain ⟨o2, h2, h⟩ := bind_ok _ _ _ h
+    cases o2 with
+    | some r2 =>
+      have := pure_ok _ _ h
+      subst this
+      exact try_nrm _ _ _ _ hb h2
+    | none =>
+      simp only [] at h
+      obtain ⟨cs, _, h⟩ := bind_ok _ _ _ h
+      obtain ⟨ct, _, h⟩ := bind_ok _ _ _ h
+      obtain ⟨o, _, h⟩ := bind_ok _ _ _ h
+      obtain ⟨q, _, h⟩ := bind_ok _ _ _ h
+      exact nrm_of_renorm q r (pure_ok _ _ h) hw
+
+theorem or_nrm (a b r : SI) (hw : r.WF) (h : a.bitwiseOr b = .ok r) : Nrm r := by
+  unfold SI.bitwiseOr at h
+  obtain ⟨us, _, h⟩ := bind_ok _ _ _ h
+  obtain ⟨vs, _, h⟩ := bind_ok _ _ _ h
+  obtain ⟨u, _, h⟩ := bind_ok _ _ _ h
+  exact nrm_of_renorm u r (pure_ok _ _ h) hw
+
+theorem xor_nrm (a b r : SI) (hw : r.WF) (h : a.bitwiseXor b = .ok r) : Nrm r := by
+  unfold SI.bitwiseXor at h
+  obtain ⟨cs, _, h⟩ := bind_ok _ _ _ h
+  obtain ⟨ct, _, h⟩ := bind_ok _ _ _ h
+  obtain ⟨o1, _, h⟩ := bind_ok _ _ _ h
+  obtain ⟨l, _, h⟩ := bind_ok _ _ _ h
+  obtain ⟨o2, _, h⟩ := bind_ok _ _ _ h
+  obtain ⟨q, _, h⟩ := bind_ok _ _ _ h
+  obtain ⟨o3, _, h⟩ := bind_ok _ _ _ h
+  exact nrm_of_renorm o3 r (pure_ok _ _ h) hw
+
 theorem bin_proved_nrm (op : BinOp) (hop : restBin op = false) (a b r : SI) (o o' : Orders) (wa : a.WF)
-    (hw : r.WF) (h : applyBin op a b o = .ok (r, o')) : Nrm r := by
+    (hbits : a.bits = b.bits) (hw : r.WF) (h : applyBin op a b o = .ok (r, o')) : Nrm r := by
   cases op <;> simp only [restBin] at hop <;> try (exact absurd hop (by decide))
   · simp only [applyBin] at h
     have := pure_ok _ _ h
@@ -266,6 +351,21 @@ theorem bin_proved_nrm (op : BinOp) (hop : restBin op = false) (a b r : SI) (o o
       have := pure_ok _ _ h
       cases this
       exact udiv_nrm a b r od hw h1
+  · simp only [applyBin] at h
+    obtain ⟨r1, h1, h⟩ := bind_ok _ _ _ h
+    have := pure_ok _ _ h
+    cases this
+    exact and_nrm a b r hw h1 wa.1 hbits
+  · simp only [applyBin] at h
+    obtain ⟨r1, h1, h⟩ := bind_ok _ _ _ h
+    have := pure_ok _ _ h
+    cases this
+    exact or_nrm a b r hw h1
+  · simp only [applyBin] at h
+    obtain ⟨r1, h1, h⟩ := bind_ok _ _ _ h
+    have := pure_ok _ _ h
+    cases this
+    exact xor_nrm a b r hw h1
   · simp only [applyBin] at h
     obtain ⟨r1, h1, h⟩ := bind_ok _ _ _ h
     have := pure_ok _ _ h
@@ -338,8 +438,8 @@ theorem convBV_rest_good (anno : Nat → SI) (env : Nat → Nat)
         ∀ x y v, p1.1.si.mem x → p2.1.si.mem y → concBin op p1.1.si.bits x y = some v → p3.1.mem v := by
       by_cases hr : restBin op = true
       · exact (R (by simp [usesRestBV, hr])).bin op _ _ _ _ _ hr wa wb hbits h3
-      · have k1 := bin_proved op (by simpa using hr) _ _ _ _ _ wa wb hbits hab hbb h3
-        exact ⟨⟨k1.1, bin_proved_nrm op (by simpa using hr) _ _ _ _ _ wa k1.1.1 h3⟩, k1.2⟩
+      · have k1 := bin_proved op (by simpa using hr) _ _ _ _ _ wa wb hbits hab hbb na nb h3
+        exact ⟨⟨k1.1, bin_proved_nrm op (by simpa using hr) _ _ _ _ _ wa hbits k1.1.1 h3⟩, k1.2⟩
     obtain ⟨⟨⟨wr, br⟩, nr⟩, mr⟩ := key
     refine ⟨?_, nr⟩
     refine ⟨⟨wr, by rw [br, ba]; rfl⟩, ?_⟩
